@@ -412,6 +412,7 @@ func gnssTime(prop string, anyStart bool) func(*hx.Ctx) *hx.Outcome {
 							return
 						}
 						msgs = append(msgs, m)
+						rt.Progress()
 					}
 				})
 			})
